@@ -73,7 +73,7 @@ func runC07(c *engine.Ctx, tier string) {
 		} {
 			root := x.root
 			c.Guard(engine.Guard{ID: x.id, Pkg: pkgStoreCfgV2, Min: 1, PathsOverride: sp,
-				Sel: engine.Sel{Call: "map.Map.Update", Filter: func(p *engine.Path, i int) bool { return strings.HasSuffix(p.Root.Name(), root) }},
+				Sel:     engine.Sel{Call: "map.Map.Update", Filter: func(p *engine.Path, i int) bool { return strings.HasSuffix(p.Root.Name(), root) }},
 				Require: x.vals + " == nil || #ok(" + storeFn + ")",
 				Why:     "the commit/apply step is re-entrant only because the cursor in the record is written after the values it stands for: a crash between the two writes must leave the cursor behind, never ahead"})
 		}
